@@ -18,7 +18,7 @@ func vFindVerify(key []byte, purpose string, data []byte) bool {
 	return found
 }
 
-//verif: replay=none unwind=130 cover=resp-hello-accepted,init-hello-accepted,init-done-accepted,resp-done-accepted,data-accepted,rejected bounds="Session.Deliver: one step from every (role, handshake index) with an arbitrary 32-bit counter and 0..2 body bytes; Noise payload 0..3 bytes, protobuf fields and parsed keys arbitrary, Verify answers arbitrary"
+// verif: replay=none unwind=130 cover=resp-hello-accepted,init-hello-accepted,init-done-accepted,resp-done-accepted,data-accepted,rejected bounds="Session.Deliver: one step from every (role, handshake index) with an arbitrary 32-bit counter and 0..2 body bytes; Noise payload 0..3 bytes, protobuf fields and parsed keys arbitrary, Verify answers arbitrary"
 func VH_C03_handshakeStep() bool {
 	s := vHsSession()
 	hs0 := s.hsIndex
@@ -82,7 +82,7 @@ func VH_C03_handshakeStep() bool {
 	return true
 }
 
-//verif: replay=none cover=has-message,no-message bounds="Handshake(): from every (role, handshake index): two calls return equal bytes and change nothing; never panics"
+// verif: replay=none cover=has-message,no-message bounds="Handshake(): from every (role, handshake index): two calls return equal bytes and change nothing; never panics"
 func VH_C06_handshakeIdempotent() bool {
 	s := vHsSession()
 	hs0, n0 := s.hsIndex, s.nonce
@@ -96,7 +96,7 @@ func VH_C06_handshakeIdempotent() bool {
 	return vEqBytes(a, b) && s.hsIndex == hs0 && s.nonce == n0
 }
 
-//verif: replay=none unwind=130 cover=init-0,init-2,resp-0,resp-1 bounds="progress: from each non-final (role, index) the next genuine message, when every stub outcome is 'valid' (no error returned), advances exactly one step and yields the next handshake message to send; old/duplicate/reflected handshake messages leave the state unchanged and are answered with the cached current message"
+// verif: replay=none unwind=130 cover=init-0,init-2,resp-0,resp-1 bounds="progress: from each non-final (role, index) the next genuine message, when every stub outcome is 'valid' (no error returned), advances exactly one step and yields the next handshake message to send; old/duplicate/reflected handshake messages leave the state unchanged and are answered with the cached current message"
 func VH_C06_progressAndDuplicates() bool {
 	s := vHsSession()
 	vAssume(s.hsIndex < 4)
